@@ -232,7 +232,8 @@ type Op struct {
 	Path    string       `json:"path,omitempty"`
 	Content string       `json:"content,omitempty"` // import file content when not produced by an export
 	Note    string       `json:"note,omitempty"`
-	Gen     *GenSpec     `json:"gen,omitempty"` // kind "geninsert"
+	Gen     *GenSpec     `json:"gen,omitempty"`     // kind "geninsert"
+	FaultAt int64        `json:"faultat,omitempty"` // > 0: the FaultAt-th fallible store call of this operation fails
 }
 
 func (o Op) String() string {
